@@ -702,9 +702,9 @@ func genValue06(rng *Rng, allowBin bool) string {
 	switch {
 	case k < 30:
 		return rng.Pick([]string{"1", "v", "value", "x y", "2", "prod", "dev"})
-	case k < 72:
+	case k < 66:
 		return rng.Pick(advValues06)
-	case k < 82:
+	case k < 76:
 		return longValue06(rng)
 	case k < 94 && allowBin:
 		if rng.Chance(70) {
@@ -864,6 +864,10 @@ var genNames06 = []string{"cfg", "app", "cfg", "cfg"}
 
 var malformedPct06 = 3
 
+// pairs declared so far for each object of the tree being generated (reset per tree; derived from the Rng only)
+var declared06 = map[key06][]kv06{}
+var redeclared06 int
+
 type key06 struct {
 	secret   bool
 	name, ns string
@@ -950,7 +954,49 @@ func genGen06(rng *Rng, depth int, secretOnly int, files *[]kv06, fileSeq *int, 
 		used[k] = true
 		g.Intent = append(g.Intent, kv06{bstr(k), bstr(genValue06(rng, allowBin))})
 	}
+	// an overlay that merges/replaces an existing object re-declares some of the keys lower layers gave it:
+	// same key, different value of the same kind (binary over binary, text over text) or of the other kind
+	if prior := declared06[key06{g.Secret, g.Name, g.Ns}]; known != nil && len(prior) > 0 &&
+		(g.Behavior == "merge" || g.Behavior == "replace") {
+		for tries := 0; tries < 3; tries++ {
+			p := prior[rng.Intn(len(prior))]
+			if rng.Chance(60) { // prefer a key whose current value is binary
+				for _, q := range prior {
+					if !utf8.ValidString(string(q.V)) && !used[string(q.K)] {
+						p = q
+					}
+				}
+			}
+			k, old := string(p.K), string(p.V)
+			if used[k] || !rng.Chance(60) {
+				continue
+			}
+			used[k] = true
+			var v string
+			sameKind := rng.Chance(75)
+			if utf8.ValidString(old) == sameKind { // new value is text
+				v = rng.Pick([]string{"over", "new value", "2", "x\ny\n", "<&>", ""})
+				if v == old {
+					v = old + "!"
+				}
+			} else {
+				v = rng.Pick(binValues06)
+				if rng.Chance(40) {
+					v = "\xff" + randBytes06(rng, 1+rng.Intn(90))
+				}
+				if v == old {
+					v = old + "\xfe"
+				}
+			}
+			g.Intent = append(g.Intent, kv06{bstr(k), bstr(v)})
+			redeclared06++
+		}
+	}
 	renderSources06(rng, &g, files, fileSeq)
+	if known != nil && g.Name != "" {
+		kk := key06{g.Secret, g.Name, g.Ns}
+		declared06[kk] = append(declared06[kk], g.Intent...)
+	}
 	if !g.IntentKnown {
 		// keep only the expressible pairs as the intent
 		var kept []kv06
@@ -1040,6 +1086,7 @@ func genLayer06(rng *Rng, depth int, known *[]key06) *layer06 {
 
 // genTree06: chains of 1-3 layers (top last), sometimes a top layer over two independent bases.
 func genTree06(rng *Rng) *layer06 {
+	declared06 = map[key06][]kv06{}
 	if rng.Chance(14) {
 		var k0, k1 []key06
 		b0 := genLayer06(rng, 0, &k0)
@@ -1578,6 +1625,7 @@ func runOne06(r *Run, rng *Rng, c case06, toModel bool) {
 			r.Count("shape", "two-bases")
 		}
 		countTree06(r, c.Tree)
+		redeclStats06(r, c.Tree, map[key06]map[string]string{})
 		if ob.cls == ClsOk {
 			r.Count("objects", fmt.Sprint(min06(len(ob.objs), 4)))
 			for _, o := range ob.objs {
@@ -1631,6 +1679,34 @@ func errKind06(msg string) string {
 		return "other: " + msg[len(msg)-60:]
 	}
 	return "other: " + msg
+}
+
+// redeclStats06 counts merge declarations that re-declare a key an earlier declaration of the same object had
+func redeclStats06(r *Run, l *layer06, seen map[key06]map[string]string) {
+	for _, b := range l.Bases {
+		redeclStats06(r, b, seen)
+	}
+	for _, gs := range [][]gen06{l.CmGens, l.SecGens} {
+		for _, g := range gs {
+			kk := key06{g.Secret, g.Name, g.Ns}
+			if seen[kk] == nil {
+				seen[kk] = map[string]string{}
+			}
+			for _, p := range g.Intent {
+				if old, ok := seen[kk][string(p.K)]; ok && old != string(p.V) && behaviorOf06(g.Behavior) == "merge" && !g.Secret {
+					switch ob, nb := !utf8.ValidString(old), !utf8.ValidString(string(p.V)); {
+					case ob && nb:
+						r.Count("redeclare", "merge-binary-over-binary")
+					case !ob && !nb:
+						r.Count("redeclare", "merge-text-over-text")
+					default:
+						r.Count("redeclare", "merge-cross-kind")
+					}
+				}
+				seen[kk][string(p.K)] = string(p.V)
+			}
+		}
+	}
 }
 
 func countTree06(r *Run, l *layer06) {
